@@ -1,0 +1,31 @@
+//go:build verif
+
+// Verification hooks (build tag "verif"): perturbation points used by the
+// external runtime monitors under /verif. Only adds code; see verif_off.go.
+package pipeline
+
+import "sync/atomic"
+
+var verifPoint atomic.Pointer[func(string, *BlockItem)]
+
+// VerifSetPoint installs (or with nil removes) the perturbation callback.
+// The callback receives the point name and the item in hand.
+func VerifSetPoint(f func(string, *BlockItem)) {
+	if f == nil {
+		verifPoint.Store(nil)
+		return
+	}
+	verifPoint.Store(&f)
+}
+
+func verifPt(name string, item *BlockItem) {
+	if f := verifPoint.Load(); f != nil {
+		(*f)(name, item)
+	}
+}
+
+func verifPtStage(stage Stage, name string, item *BlockItem) {
+	if f := verifPoint.Load(); f != nil {
+		(*f)(stage.Name()+"."+name, item)
+	}
+}
